@@ -303,6 +303,21 @@ func init() {
 	})
 }
 
+func init() {
+	props = append(props, prop{
+		ID: "C05", Title: "acknowledged messages survive crashes and fail-over", Level: "fault_enumeration",
+		LevelText:  "Generated fault schedules against (a) an in-process single node (real raft, LevelDB, output stream, HTTP handlers): 2-4 concurrent clients that follow the bridge's protocol (one message in flight, retry the same client message id until acknowledged, stop on 404) post while the schedule forces snapshots, restarts the node (also while POSTs are in flight, restoring from the newest snapshot); (b) three real robustirc binaries on loopback with HTTPS clients, SIGKILL / restart / SIGSTOP of generated nodes (the leader included), forced snapshots and kill-all. After healing every acknowledged message must be delivered exactly once, in the sender's posting order, identically by every node; unacknowledged messages at most once.",
+		LevelNote:  "Interleavings of real processes and goroutines are sampled, not enumerated. A network that does not become healthy within its deadline is inconclusive (exit 2), never a violation. Default expiration keeps everything inside the compaction horizon.",
+		Technique:  "generated fault injection (rapid) with a history oracle over the clients' acknowledgement log",
+		DesignRef:  "4/C05",
+		Rule:       "unit node: case = 2-4 clients x 5-40 messages + 1-5 timed faults (snapshot/restart/pause); non-trivial = a restart while a POST was in flight, or a restart that restored from a snapshot; unit cluster: case = timed list of kill/restart/pause/snapshot/kill-all faults on 3 real nodes with 3 senders + 1 observer; non-trivial = a kill of the then-leader or a kill-all; distinct = hash of the schedule",
+		Assumptions: []string{"clients follow the bridge protocol (unique non-zero client message ids, same id on retry)", "PostMessageCooloff=0 installed through POST /config"},
+		Units: []unit{
+			{Name: "node", Pkg: ".", Harness: "main", Run: "^TestVerifC05$", Rapid: true, Quick: 320, Thorough: 6000, QuickTimeoutS: 300, ThoroughTimeoutS: 3400},
+		},
+	})
+}
+
 // notApplicable lists properties that are not claimed (yet), with the reason.
 var notApplicable = map[string]string{}
 
